@@ -1,0 +1,19 @@
+//go:build verif
+
+package spv
+
+import (
+	"github.com/keep-network/keep-core/pkg/bitcoin"
+	"github.com/keep-network/keep-core/pkg/maintainer/btcdiff"
+)
+
+// VerifGetProofInfo exposes getProofInfo to the out-of-tree verification
+// harness (property C32). It has no behaviour of its own.
+func VerifGetProofInfo(
+	transactionHash bitcoin.Hash,
+	btcChain bitcoin.Chain,
+	spvChain Chain,
+	btcDiffChain btcdiff.Chain,
+) (bool, uint, uint, error) {
+	return getProofInfo(transactionHash, btcChain, spvChain, btcDiffChain)
+}
